@@ -48,6 +48,17 @@ type family struct {
 
 func tOf[T any]() reflect.Type { var p *T; return reflect.TypeOf(p).Elem() }
 
+// upload: a struct with fields that stay nil / zero when the peer leaves them out (pointer, interface,
+// recursive pointer, map, slice) next to a Binary leaf — the reconstruct walk has to cope with every one.
+type upload struct {
+	Data  sio.Binary        `json:"data"`
+	Meta  *gen.S1           `json:"meta"`
+	Extra any               `json:"extra"`
+	Next  *upload           `json:"next"`
+	Tags  map[string]string `json:"tags"`
+	Parts []*gen.S2         `json:"parts"`
+}
+
 var families = []family{
 	{"()", nil},
 	{"(Binary)", []reflect.Type{tOf[sio.Binary]()}},
@@ -58,6 +69,8 @@ var families = []family{
 	{"(string,func())", []reflect.Type{tOf[string](), tOf[func()]()}},
 	{"([]Binary)", []reflect.Type{tOf[[]sio.Binary]()}},
 	{"([]any,any)", []reflect.Type{tOf[[]any](), tOf[any]()}},
+	{"(upload)", []reflect.Type{tOf[upload]()}},
+	{"(*upload)", []reflect.Type{tOf[*upload]()}},
 }
 
 // outcome of one hostile frame sequence against the real parser.
@@ -373,7 +386,7 @@ func mutations(run *vk.Run) [][][]byte {
 	var out [][][]byte
 	add := func(frames ...[]byte) { out = append(out, frames) }
 	att := []byte{1, 2, 3}
-	events := []string{"e", "m", "a", "s", "p", "k", "l", "g"}
+	events := []string{"e", "m", "a", "s", "p", "k", "l", "g", "u", "v"}
 	nums := []string{"-9223372036854775808", "-2", "-1", "0", "1", "2", "3", "1e300", "1.5", "-0.5", `"0"`, "true", "null", "[]", "{}", "9223372036854775807", "18446744073709551616", "1e19"}
 	counts := []string{"-1", "0", "1", "2", "3", "2147483648", "9223372036854775807", "9223372036854775808", "18446744073709551615", "18446744073709551616", "1e19", "01", "+1", " 1"}
 	for _, ev := range events {
@@ -388,6 +401,8 @@ func mutations(run *vk.Run) [][][]byte {
 				`51-["%s",{"inner":{"bin":{"_placeholder":true,"num":%s}}}]`,
 				`51-["%s",{"a":{"b":{"_placeholder":true,"num":%s}}}]`,
 				`51-["%s",{"_placeholder":false,"num":%s}]`,
+				`51-["%s",{"data":{"_placeholder":true,"num":%s}}]`,
+				`51-["%s",{"data":{"_placeholder":true,"num":%s},"meta":null,"extra":null,"next":{"data":null,"next":null},"parts":[null]}]`,
 				`51-/nsp,7["%s",{"_placeholder":true,"num":%s}]`,
 			} {
 				add([]byte(fmt.Sprintf(tmpl, ev, n)), att)
@@ -490,6 +505,8 @@ func childServer() {
 		s.OnEvent("l", func(v []sio.Binary) { count() })
 		s.OnEvent("g", func(v []any, w any) { count() })
 		s.OnEvent("n", func() { count() })
+		s.OnEvent("u", func(v upload) { count() })
+		s.OnEvent("v", func(v *upload) { count() })
 		s.OnEvent("canary", func(n int, ack func(int)) { ack(n) })
 	})
 	// stats endpoint on a second listener
@@ -772,7 +789,7 @@ type quiet struct {
 	waitingAfter     bool
 }
 
-var eventFamily = map[string]string{"e": "(Binary)", "m": "(map)", "a": "(any)", "s": "(S2)", "p": "(*S6)", "k": "(string,func())", "l": "([]Binary)", "g": "([]any,any)", "n": "()"}
+var eventFamily = map[string]string{"e": "(Binary)", "m": "(map)", "a": "(any)", "s": "(S2)", "p": "(*S6)", "k": "(string,func())", "l": "([]Binary)", "g": "([]any,any)", "n": "()", "u": "(upload)", "v": "(*upload)"}
 
 // feedQuiet classifies a sequence with the real parser (recovering panics) to know what the server must report.
 func feedQuiet(frames [][]byte) (q quiet) {
